@@ -1,0 +1,29 @@
+// Copyright 2023 The Go Authors. All rights reserved.
+// Use of this source code is governed by a BSD-style
+// license that can be found in the LICENSE file.
+
+//go:build verif && (!goexperiment.jsonv2 || !go1.25)
+
+package jsonwire
+
+// Engine canaries, run with every check: the verifier must prove the clause
+// labelled must-pass and must fail to prove the clauses labelled must-fail.
+// A wrong answer on either aborts the check as an engine error.
+
+//@ func canaryIncr
+//@ property CANARY
+//@ ensures must-pass: result == x+1 || x == 255
+//@ ensures must-fail-wrap: result > x
+func canaryIncr(x uint8) uint8 { return x + 1 }
+
+//@ func canaryScan
+//@ property CANARY
+//@ ensures must-pass: 0 <= n && n <= len(b) && vForall(0, n, func(i int) bool { return b[i] == 'a' })
+//@ ensures must-fail-all: n == len(b)
+//@ loop 0 invariant 0 <= n && n <= len(b) && vForall(0, n, func(i int) bool { return b[i] == 'a' })
+func canaryScan(b []byte) (n int) {
+	for n < len(b) && b[n] == 'a' {
+		n++
+	}
+	return n
+}
